@@ -394,6 +394,12 @@ type TameRaster struct {
 	Limit float32
 	Bad   bool
 	Hash  uint64
+	Draws int // Draw calls passed on
+}
+
+func (z *TameRaster) Draw(r image.Rectangle, src image.Image, sp image.Point) {
+	z.Draws++
+	z.Rasterizer.Draw(r, src, sp)
 }
 
 func (z *TameRaster) ok(k RKind, f ...float32) bool {
